@@ -42,7 +42,7 @@ PROPS = {
     "C12": {
         "level": "exploration",
         "tests": [{"name": "TestC12", "noasm": True, "quick": 6000, "thorough": 100000}],
-        "rule": "cases = (setting over flate/gzip/zlib, one or two earlier histories of Write/Flush/Close with sizes that leave compressed-but-unemitted data, optional failing destination, gzip header fields set before; then Reset and a later history) drawn by rapid; "
+        "rule": "cases = (setting over flate/gzip/zlib, one or two earlier histories of Write/Flush/Close with sizes that leave compressed-but-unemitted data, optional failing destination, gzip header fields set before; then Reset and a later history) drawn by rapid; for dictionary settings the dictionary lives in a buffer the caller keeps and, in half of those cases, overwrites once the earlier stream has been closed (the constructors ask only that it stay unmodified until Close); "
                 "oracle (model = fresh object): per-call bytes, byte counts and errors after Reset equal those of a newly constructed Writer running the same later history; a closed later stream decodes to the later data. "
                 "Non-trivial = earlier history wrote >=1 byte, later history writes >=1 byte, fastgo's own compressor.",
         "assumptions": COMMON_ASSUME,
@@ -63,7 +63,7 @@ PROPS = {
             {"name": "TestC16Ctor", "kind": "plain"},
         ],
         "rule": "exhaustive: every call sequence of length 1..4 (quick) / 1..5 (thorough) over {Write(empty), Write(37), Write(buffer-full+7), Flush, Close, Reset} x 24 settings (flate 4K/32K, gzip, zlib; levels -2,-1,0,1,2,6,9); random sequences up to length 40 beyond; constructor x level in [-5,12]. "
-                "Oracle: a twin standard-library Writer runs the same sequence; no panic; error iff the twin errs; calls after a successful Close emit bytes only if the twin's do; bytes up to the first successful Close are a complete valid container of the data written since the last Reset. "
+                "Oracle: a twin standard-library Writer runs the same sequence; no panic; error iff the twin errs; calls after a successful Close emit bytes only if the twin's do, and a repeated Close that returns nil emits nothing in any package (compress/zlib itself re-emits its trailer; the property's clause is taken literally); bytes up to the first successful Close are a complete valid container of the data written since the last Reset. "
                 "Non-trivial = sequence contains a call after Close, Flush/Close with nothing written, or a zero-length Write.",
         "assumptions": COMMON_ASSUME,
     },
@@ -77,7 +77,7 @@ PROPS = {
     "C20": {
         "level": "exploration",
         "tests": [{"name": "TestC20", "noasm": True, "quick": 8000, "thorough": 400000}],
-        "rule": "cases = expansion mode (uniform, near-uniform, Fibonacci-skewed, all-distinct, alternating compressible/incompressible, mixed recipes; sizes around block thresholds; levels -2,-1,1,2; both windows; one or several Writes, one Close, no Flush) and periodic mode (period 1..64, n in {65536,65537,70000,131072,200000,max}; levels 1,2,-1); "
+        "rule": "cases = expansion mode (uniform, near-uniform, Fibonacci-skewed, all-distinct, alternating compressible/incompressible, mixed recipes; sizes around block thresholds; levels -2,-1,1,2; both windows; one or several Writes, one Close, no Flush) and periodic mode (period 1..64 of random bytes, n in {65536,65537,70000,131072,200000,max}; levels 1,2,-1); periods in the class of the known finding periodic-hash-bucket-collisions (>= 3/4 of the period's 4-byte windows share a match-finder hash bucket with another window; never drawn at random: max fraction seen 1/2) are excluded and counted; "
                 "oracle: len(out) <= n + n/32 + 256, resp. <= n/32 + 1200, and the output decodes to the input. Non-trivial = n >= 1. measurements report the worst observed fraction of each bound per setting.",
         "assumptions": COMMON_ASSUME,
     },
@@ -98,7 +98,7 @@ PROPS = {
             {"name": "TestC03Sweep", "kind": "plain", "shards": {"quick": 1, "thorough": 3}},
         ],
         "fuzz": [{"name": "FuzzC03AnyBytes", "time": "150s"}],
-        "rule": "cases = random bytes (0..64), mutated valid streams (bit flips, substitutions, insertions, deletions, truncation), valid streams cut at a drawn byte, synthesised streams with one injected fault at a drawn block (distance beyond data produced, unassigned distance code, distance code used with none declared, over-subscribed lit/dist/code-length code, incomplete lit/len code, missing end-of-block code, repeat with nothing to repeat, run past the declared count, stored LEN!=~NLEN, reserved block type, length symbols 286/287, distance symbols 30/31, HLIT>29) usually followed by a long tail; placed first in a fresh Reader or after 1-3 earlier uses through Reset; x Read sizes x source chunking; plus every truncation point of fixed small valid streams (exhaustive). "
+        "rule": "cases = random bytes (0..64), mutated valid streams (bit flips, substitutions, insertions, deletions, truncation), valid streams cut at a drawn byte, synthesised streams with one injected fault at a drawn block (distance beyond data produced, unassigned distance code, distance code used with none declared, over-subscribed lit/dist/code-length code, incomplete lit/len code, missing end-of-block code, repeat with nothing to repeat, run past the declared count, stored LEN!=~NLEN, reserved block type, length symbols 286/287, distance symbols 30/31, HLIT>29, and distance code lengths given literally: any multiset, complete, incomplete or over-subscribed, mostly long codes) usually followed by a long tail; placed first in a fresh Reader or after 1-3 earlier uses through Reset; x Read sizes x source chunking; plus every truncation point of fixed small valid streams (exhaustive); plus every multiset of distance code lengths over 11..15 with exactly 30 codes and every 31st of those with fewer (all 324631 in the thorough tier); plus a back-reference reaching one or two bytes before the output start at produced counts around 1, 255, 4096, 32768, 65536. "
                 "Oracle: no panic; terminates (livelock bound + watchdog); bytes handed out are a prefix of the reference inflater's output; io.EOF only if the (permissive) reference judges the input to begin with a complete stream and all its bytes were delivered, and always if compress/flate accepts; constructed prefixes end in io.ErrUnexpectedEOF; a defect with >=400 input bytes after it ends in CorruptInputError; the error repeats on later Reads. "
                 "Non-trivial = reference verdict is not VALID and the defect/truncation lies after the first complete block header.",
         "assumptions": COMMON_ASSUME,
@@ -183,8 +183,8 @@ PROPS = {
     "C15": {
         "level": "fault_enumeration",
         "tests": [{"name": "TestC15", "quick": 1600, "thorough": 24000}],
-        "rule": "cases = (flate | gzip multistream with 1-2 members | zlib; fastgo or standard encoder; payload mostly <= 2000 bytes; error value in {custom sentinel, io.ErrClosedPipe, io.ErrUnexpectedEOF, *os.PathError}; error alone or together with the last good bytes; source chunking; plain source or *bufio.Reader of 16/64/4096; Read sizes) drawn by rapid; for each case EVERY k in 0..len (containers <= 400 bytes; otherwise first/last 40, a stride and 4 KiB boundaries) is injected as 'source fails after delivering k bytes'; gzip also k = len (failure while probing for the next member). "
-                "Oracle: the Reader (or its constructor) ends with exactly that error value; bytes returned before are a prefix of the true payload; the next three Reads return the same error and no data. evaluations = (case, k) pairs; non-trivial = k >= 1.",
+        "rule": "cases = (flate | gzip multistream with 1-2 members | zlib; fastgo or standard encoder; payload mostly <= 2000 bytes; error value in {custom sentinel, io.ErrClosedPipe, io.ErrUnexpectedEOF, *os.PathError, an error wrapping io.EOF, a deadline error, and the sentinel values bufio.ErrBufferFull, io.ErrNoProgress, io.ErrShortBuffer of the packages the Readers are built on}; error alone or together with the last good bytes; source chunking; plain source or *bufio.Reader of 16/64/4096; Read sizes) drawn by rapid; for each case EVERY k in 0..len (containers <= 400 bytes; otherwise first/last 40, a stride and 4 KiB boundaries) is injected as 'source fails after delivering k bytes'; gzip also k = len (failure while probing for the next member). "
+                "Oracle: the Reader (or its constructor) ends with exactly that error value (a source that has answered 200000 consecutive calls with its error and is still being called is a livelock - clock-free guard); bytes returned before are a prefix of the true payload; the next three Reads return the same error and no data. evaluations = (case, k) pairs; non-trivial = k >= 1.",
         "assumptions": COMMON_ASSUME,
     },
     "C17": {
